@@ -98,6 +98,9 @@ structure Slot where
   closedAs : Option (Option Nat) := none
   /-- ghost: the guard's send happened before this slot was closed -/
   sentOk : Bool := false
+  /-- ghost, only set by the extended model (`Model/KeepAliveX.lean`): the guard's `value.close()` panicked inside
+  `SlotGuard::drop`, the sender went away without sending -/
+  failed : Bool := false
   deriving DecidableEq, Repr
 
 /-- one appended entry: plain field, counter field, closed slot fields -/
